@@ -1,7 +1,7 @@
 (* C08 -- Self-replacement is a no-op and element substitutions are reversible.
    Proved: replacing a pattern (no two same-element atoms at the same coordinates) by itself, replace_all off, deletes and inserts nothing and
    leaves position, charge and group of every atom unchanged -- for any matches.  Elements: the matched atoms are re-typed to the pattern's
-   types, which resolve to the same elements because the search only matches equal elements (C01_sound).  Term tuples: unchanged when the pattern has no terms
+   types, which resolve to the same elements because the search only matches equal elements (C01_sound): C08_self_replacement_elements.  Term tuples: unchanged when the pattern has no terms
    (C08_self_replacement_terms); otherwise by C11_terms the pattern adds only what it carries.  The substitution round trip A -> B -> A and "a second search finds none" involve
    the search's completeness (C02, open) and are validated on every run (partial). *)
 From Coq Require Import List Arith Bool ZArith.
@@ -25,6 +25,18 @@ Theorem C08_self_replacement_terms : forall S P ig sel S' k, pattern_distinct P 
   replace_from S P P false ig sel = Ok S' k -> same_terms S' S.
 Proof. exact self_replace_terms. Qed.
 Print Assumptions C08_self_replacement_terms.
+
+(* elements: matched atoms are re-typed to the pattern's (appended) types; provided every matched atom has the element of the pattern atom
+   it is matched to -- which is what the search guarantees (C01_sound) -- every atom of the structure resolves to the same element as before,
+   for any number of matches, overlapping or not.  (S consistent: one type per atom, every type id inside the element table.) *)
+Theorem C08_self_replacement_elements : forall S P ig sel S' k, pattern_distinct P -> natoms P <> 0 ->
+  Forall (fun m => length (m_idx m) = natoms P /\ length (m_placed m) = natoms P) sel ->
+  length (a_typ S) = natoms S -> Forall (fun t => t < length (t_el S)) (a_typ S) ->
+  (forall m j, In m sel -> j < natoms P -> element_of S (nth j (m_idx m) 0) = element_of P j) ->
+  replace_from S P P false ig sel = Ok S' k ->
+  forall i, i < natoms S -> element_of S' i = element_of S i.
+Proof. exact self_replace_elements. Qed.
+Print Assumptions C08_self_replacement_elements.
 
 (* the hypothesis is needed: with two coincident same-element atoms the second one maps onto the first *)
 Example C08_distinct_needed :
@@ -51,3 +63,15 @@ Example C08_terms_nonvacuous :
   | Ok S' k => (k_tup (bonds S'), k_typ (bonds S'), k_tup (angles S')) = ([[0;1];[1;2]], [0;1], [[0;1;2]])
   | Overlap => False end.
 Proof. split; [repeat split|vm_compute; reflexivity]. Qed.
+
+(* the element hypothesis of C08_self_replacement_elements is satisfiable (N at 0, H at 1 in both S and P) and the conclusion is not trivial:
+   the type ids of the matched atoms do change (0,1 -> 3,4) while their elements do not *)
+Example C08_elements_nonvacuous :
+  let S := mk_atoms [(5,0,0)%Z; (15,0,0)%Z; (90,9,9)%Z] [0;1;2] [1%Z;2%Z;3%Z] [0%Z;1%Z;2%Z] [[];[];[]] [] [7%Z;1%Z;54%Z] [14%Z;1%Z;131%Z] [7%Z;1%Z;54%Z] []
+              empty_kind empty_kind empty_kind empty_kind None in
+  let P := mk_atoms [(0,0,0)%Z; (10,0,0)%Z] [0;1] [0%Z;0%Z] [0%Z;0%Z] [[];[]] [] [7%Z;1%Z] [14%Z;1%Z] [7%Z;1%Z] [] empty_kind empty_kind empty_kind empty_kind None in
+  map (element_of S) [0;1] = map (element_of P) [0;1] /\
+  match replace_from S P P false false [mk_smatch [0;1] [(5,0,0)%Z; (15,0,0)%Z]] with
+  | Ok S' k => a_typ S' = [3;4;2] /\ map (element_of S') [0;1;2] = map (element_of S) [0;1;2]
+  | Overlap => False end.
+Proof. vm_compute. repeat split. Qed.
